@@ -159,11 +159,15 @@ impl<Key, Value> CacheD<Key, Value>
     /// ```
     pub fn put_with_weight(&self, key: Key, value: Value, weight: Weight) -> CommandSendResult {
         if self.is_shutting_down() { return shutdown_result(); }
+        #[cfg(cached_verif)]
+        crate::cache::verif::point("call.entered");
 
         assert!(weight > 0, "{}", Errors::KeyWeightGtZero("put_with_weight"));
         if self.store.is_present(&key) {
             return Ok(CommandAcknowledgement::rejected(RejectionReason::KeyAlreadyExists))
         }
+        #[cfg(cached_verif)]
+        crate::cache::verif::point("put.checked");
         self.command_executor.send(CommandType::Put(
             self.key_description(key, weight),
             value,
@@ -195,12 +199,16 @@ impl<Key, Value> CacheD<Key, Value>
     /// ```
     pub fn put_with_ttl(&self, key: Key, value: Value, time_to_live: Duration) -> CommandSendResult {
         if self.is_shutting_down() { return shutdown_result(); }
+        #[cfg(cached_verif)]
+        crate::cache::verif::point("call.entered");
 
         let weight = (self.config.weight_calculation_fn)(&key, &value, true);
         assert!(weight > 0, "{}", Errors::WeightCalculationGtZero);
         if self.store.is_present(&key) {
             return Ok(CommandAcknowledgement::rejected(RejectionReason::KeyAlreadyExists))
         }
+        #[cfg(cached_verif)]
+        crate::cache::verif::point("put.checked");
         self.command_executor.send(CommandType::PutWithTTL(
             self.key_description(key, weight), value, time_to_live)
         )
@@ -232,11 +240,15 @@ impl<Key, Value> CacheD<Key, Value>
     /// ```
     pub fn put_with_weight_and_ttl(&self, key: Key, value: Value, weight: Weight, time_to_live: Duration) -> CommandSendResult {
         if self.is_shutting_down() { return shutdown_result(); }
+        #[cfg(cached_verif)]
+        crate::cache::verif::point("call.entered");
 
         assert!(weight > 0, "{}", Errors::KeyWeightGtZero("put_with_weight_and_ttl"));
         if self.store.is_present(&key) {
             return Ok(CommandAcknowledgement::rejected(RejectionReason::KeyAlreadyExists))
         }
+        #[cfg(cached_verif)]
+        crate::cache::verif::point("put.checked");
         self.command_executor.send(CommandType::PutWithTTL(
             self.key_description(key, weight), value, time_to_live,
         ))
@@ -263,6 +275,8 @@ impl<Key, Value> CacheD<Key, Value>
     /// ```
     pub fn put_or_update(&self, request: PutOrUpdateRequest<Key, Value>) -> CommandSendResult {
         if self.is_shutting_down() { return shutdown_result(); }
+        #[cfg(cached_verif)]
+        crate::cache::verif::point("call.entered");
 
         let updated_weight = request.updated_weight(&self.config.weight_calculation_fn);
         let (key, value, time_to_live)
@@ -344,8 +358,12 @@ impl<Key, Value> CacheD<Key, Value>
     /// ```
     pub fn delete(&self, key: Key) -> CommandSendResult {
         if self.is_shutting_down() { return shutdown_result(); }
+        #[cfg(cached_verif)]
+        crate::cache::verif::point("call.entered");
 
         self.store.mark_deleted(&key);
+        #[cfg(cached_verif)]
+        crate::cache::verif::point("delete.marked");
         self.command_executor.send(CommandType::Delete(key))
     }
 
@@ -374,6 +392,8 @@ impl<Key, Value> CacheD<Key, Value>
     /// ```
     pub fn get_ref(&self, key: &Key) -> Option<KeyValueRef<'_, Key, StoredValue<Value>>> {
         if self.is_shutting_down() { return None; }
+        #[cfg(cached_verif)]
+        crate::cache::verif::point("call.entered");
 
         #[cfg(cached_verif)]
         crate::cache::verif::lock_acquire("StoreShard");
@@ -465,12 +485,24 @@ impl<Key, Value> CacheD<Key, Value>
     pub fn shutdown(&self) {
         if self.is_shutting_down.compare_exchange(false, true, Ordering::Release, Ordering::Relaxed).is_ok() {
             info!("Starting to shutdown cached");
+            #[cfg(cached_verif)]
+            crate::cache::verif::point("shutdown.flag");
             let _ = self.command_executor.shutdown();
+            #[cfg(cached_verif)]
+            crate::cache::verif::point("shutdown.cmd_sent");
             self.admission_policy.shutdown();
+            #[cfg(cached_verif)]
+            crate::cache::verif::point("shutdown.policy");
             self.ttl_ticker.shutdown();
+            #[cfg(cached_verif)]
+            crate::cache::verif::point("shutdown.ticker");
 
             self.store.clear();
+            #[cfg(cached_verif)]
+            crate::cache::verif::point("shutdown.store_cleared");
             self.admission_policy.clear();
+            #[cfg(cached_verif)]
+            crate::cache::verif::point("shutdown.policy_cleared");
             self.ttl_ticker.clear();
         }
     }
@@ -521,8 +553,12 @@ impl<Key, Value> CacheD<Key, Value>
     /// ```
     pub fn get(&self, key: &Key) -> Option<Value> {
         if self.is_shutting_down() { return None; }
+        #[cfg(cached_verif)]
+        crate::cache::verif::point("call.entered");
 
         if let Some(value) = self.store.get(key) {
+            #[cfg(cached_verif)]
+            crate::cache::verif::point("read.hit");
             self.mark_key_accessed(key);
             return Some(value);
         }
